@@ -316,14 +316,14 @@ def run(ctx):
     TWO = "{f \\in [Cmds -> SUBSET Targets] : Cardinality(f[\"c1\"]) >= 2}"
     gens = [
         # (cmds, targets, queues, shapes, queue maps, behaviours, staggered deadlines, number of behaviours, depth)
-        (["c1"], ["t1", "t2", "t3"], ["q1"], ONE, "[Cmds -> Queues]", ALL_BEHS, "off", 450 if quick else 5000, 60),
-        (["c1", "c2"], ["t1", "t2"], ["q1", "q2"], "[Cmds -> SUBSET Targets]", "[Cmds -> Queues]", ALL_BEHS, "off", 600 if quick else 7000, 90),
+        (["c1"], ["t1", "t2", "t3"], ["q1"], ONE, "[Cmds -> Queues]", ALL_BEHS, "off", 450 if quick else 4000, 60),
+        (["c1", "c2"], ["t1", "t2"], ["q1", "q2"], "[Cmds -> SUBSET Targets]", "[Cmds -> Queues]", ALL_BEHS, "off", 600 if quick else 5500, 90),
         # staggered deadlines: one command, >= 2 targets, the SendFunc of some target slow (its response window starts and
         # ends later than its siblings'); replies placed by the clock; "gap": after a sibling's timeout, inside the own window
-        (["c1"], ["t1", "t2", "t3"], ["q1"], TWO, "[Cmds -> Queues]", STAG_BEHS, "gap", 200 if quick else 1500, 70),
+        (["c1"], ["t1", "t2", "t3"], ["q1"], TWO, "[Cmds -> Queues]", STAG_BEHS, "gap", 200 if quick else 1200, 70),
     ]
     if not quick:
-        gens.append((["c1"], ["t1", "t2", "t3"], ["q1"], TWO, "[Cmds -> Queues]", STAG_BEHS, "any", 1500, 70))
+        gens.append((["c1"], ["t1", "t2", "t3"], ["q1"], TWO, "[Cmds -> Queues]", STAG_BEHS, "any", 1200, 70))
     gi = 0
     for (cmds, tgs, qs, sh, qm, gbehs, stag, num, depth) in gens:
         gi += 1
